@@ -602,6 +602,8 @@ def script_body(t, name, script, fam, fixed=None):
     def body(ctx, out):
         it = new_interp(t)
         env = sym_env(ctx, script, fixed)
+        # the executor's per-path step bound (loop guard) scales with the length of the script
+        ctx.ex.max_steps = max(ctx.ex.max_steps, 200000 + 400 * len(script))
         stage = "writer"
         try:
             r = exec_writer(t, it, ctx, script, env)
@@ -939,7 +941,7 @@ def fmt_wire(w, v):
 
 def conc_outputs(t, script, values):
     """concrete executor run, formatted like the output of `verif-native bc`"""
-    ex = Explorer()
+    ex = Explorer(max_steps=200000 + 400 * len(script))
     ctx = Ctx(ex, ())
     it = new_interp(t)
     env = conc_env(script, values)
